@@ -1421,8 +1421,9 @@ def stream_selectors(ctx, reqs, pending):
             ds.WindowWidth = [fl(w) for w in ws] if n > 1 else fl(ws[0])
             if expl:
                 ds.WindowCenterWidthExplanation = expl if n > 1 else expl[0]
-            tr = call(hd.VOILUTTransformation, [fl(c) for c in cs] if n > 1 else fl(cs[0]), [fl(w) for w in ws] if n > 1 else fl(ws[0]),
-                      (expl if n > 1 else expl[0]) if expl else None, 'LINEAR_EXACT')
+            as_list = n > 1 or with_expl == 'dup'          # a single window as scalars, or as length-1 sequences
+            tr = call(hd.VOILUTTransformation, [fl(c) for c in cs] if as_list else fl(cs[0]), [fl(w) for w in ws] if as_list else fl(ws[0]),
+                      (expl if as_list else expl[0]) if expl else None, 'LINEAR_EXACT')
             sels = list(range(-n - 2, n + 2)) + EXPL[:n + 1] + ['NOPE']
             for sel in sels:
                 want = select_window({'c': cs, 'w': ws, 'expl': expl}, sel)
